@@ -241,6 +241,15 @@ def main_check(a) -> int:
             i["obligations_of_unit_not_counted"] = dropped
         obls += o
         infos.append(i)
+    for unit in cfg.get("py", []):
+        # units decided by a syntactic proof rule (no verifier run)
+        import importlib
+        mod = importlib.import_module(f"units.{unit}")
+        t1 = time.time()
+        o, i = mod.run(a.repo, Obligation)
+        i["wall_s"] = round(time.time() - t1, 2)
+        obls += o
+        infos.append(i)
     ax_info = None
     if cfg.get("ax"):
         o, ax_info = run_ax(a.tier)
